@@ -2,6 +2,7 @@ package multi
 
 import (
 	"fmt"
+	"net"
 	"os"
 	"runtime"
 	"runtime/debug"
@@ -46,10 +47,13 @@ func runSessions(r *eng.Run, scripts []*script, stick, segMode int) ([]*sessResu
 	runtime.GC()
 	runtime.GC()
 	res := make([]*sessResult, len(scripts))
+	conns := map[string]net.Conn{}
+	SharedDebugDialer = NewSharedDebugDialer(conns)
 	for i, sc := range scripts {
 		i, sc := i, sc
 		res[i] = &sessResult{}
 		cc, sv := s.Pipe(segMode)
+		conns[dialHost(sc)+":80"] = cc
 		if err := s.Go(func() { guard(&res[i].cli, func() { runClient(sc, cc, &res[i].cli) }) }); err != nil {
 			r.Internalf("task: %v", err)
 		}
@@ -133,7 +137,11 @@ func C19(r *eng.Run) {
 		}
 		checkPoolFaults(r, "solo run")
 		for _, l := range append(append([]string(nil), alone[0].cli.lines...), alone[0].srv.lines...) {
-			if strings.Contains(l, "match=false") || strings.HasPrefix(l, "PANIC") || strings.Contains(l, "payload was modified") {
+			if strings.HasPrefix(l, "handshake: protocol=") && !strings.HasSuffix(l, "err=<nil>") {
+				// Every scripted session is built to succeed when run alone.
+				r.Failf("session_alone_wrong", "session %d run alone: %s", i, l)
+			}
+			if strings.Contains(l, "match=false") || strings.HasPrefix(l, "PANIC") || strings.Contains(l, "payload was modified") || strings.Contains(l, "was modified later") || strings.Contains(l, "intact=false") {
 				r.Failf("session_alone_wrong", "session %d run alone: %s", i, l)
 			}
 		}
